@@ -68,6 +68,23 @@ func c07Corpus() []c07Prog {
 		p.Flow("Z", "end", "")
 		mk("parallel join half full", p, "", nil, []string{"A"}, "")
 	}
+	{ // conditions that cannot be compiled, the same text on several flows and evaluated by several tokens
+		p := &Prog{}
+		p.Node("start", "start")
+		p.Node("par", "F")
+		for i := 0; i < 2; i++ {
+			x := p.Node("xor", fmt.Sprintf("X%d", i))
+			p.Node("task", fmt.Sprintf("A%d", i))
+			p.Flow("F", fmt.Sprintf("X%d", i), "")
+			p.Flow(fmt.Sprintf("X%d", i), "end", "this is ( not an expression")
+			p.Flow(fmt.Sprintf("X%d", i), "end", "this is ( not an expression")
+			x.Default = p.Flow(fmt.Sprintf("X%d", i), fmt.Sprintf("A%d", i), "").ID
+			p.Flow(fmt.Sprintf("A%d", i), "end", "")
+		}
+		p.Node("end", "end")
+		p.Flow("start", "F", "")
+		mk("conditions that do not compile, the same text on four flows", p, "", nil, nil, "")
+	}
 	{ // inclusive fork with an untaken branch, join waiting
 		out = append(out, c07Prog{"inclusive join waiting, untaken branch", c05Prog(3, true, []bool{true, true, true, true}).XML(""),
 			map[string]any{"c0": true, "c1": true, "c2": false}, []string{"A0"}, ""})
